@@ -21,7 +21,8 @@ EXPLANATION = (
     ' Fourth round: objects created in a class body are shared by all instances: methods that consume or change them are reported like writes to module-level objects.'
     ' Fifth round: printers calling a setter of module-level state elsewhere in the package; vars(x) is x.'
     ' Sixth and seventh round: entries of module-level tables, default arguments and in-place updates count as module state; no clock / random / identity value is read while rendering; to_string does not reorder.'
-    ' Eighth round: next(NAME) on a module-level iterator is module state.')
+    ' Eighth round: next(NAME) on a module-level iterator is module state.'
+    " Ninth and tenth round: a container the enclosing function builds from the result holds the result's objects (popping from it is the printer's business, changing what was popped is not); the list-valued views of Tree are built anew on every path.")
 TRUSTED = ['CPython ast', 'sa/pysym.py path walker', 'alias model in sa/effects.py (shallow constructors, element-returning methods)']
 
 POSITIVE_EXAMPLE = '''
